@@ -101,7 +101,7 @@ class Parser:
         context._sheets_size = excel.get_sheets_size()
 
         if self._entrypoint_cell:
-            CellTranslator.translate(self._entrypoint_cell, excel, context)
+            CellTranslator.translate(excel.fill_cell(self._entrypoint_cell), excel, context)
         else:
             CellTranslator.translate_file(excel, context)
 
